@@ -11,6 +11,15 @@ CLAIMED = {
        'StreamBufferReader byte/shift tables, swapBytes reversal. Value identity per bit pattern is not decided.',
   technique='custom AST checker over clang-resolved template instantiations (units rule, sibling agreement, constant byte/shift table evaluation)',
   ref='DESIGN.md section 3 C16'),
+
+ 'C12': dict(
+  text='Static decision of the reference-count and lock protocol on every constructor, destructor and assignment of the four handle '
+       'families (Array, HashMap, Shared/SharedCore, SmartObject) and every member of Atomic<T>: atomic primitive, decrement-and-test on the '
+       'returned value, one acquire/one release per path, acquire before release, fresh count 1, relocation only when unique, Lock scope '
+       'encloses every access. These are the necessary conditions of the standard protocol argument for all interleavings; the interleavings '
+       'themselves are not enumerated.',
+  technique='typestate dataflow over per-function CFGs with same-family callee inlining (reference-count protocol), lock-scope enclosure check, LLVM-IR cross-check of the atomic primitive (thorough)',
+  ref='DESIGN.md section 2 R-RC/R-LOCK, section 3 C12'),
 }
 
 NOT_APPLICABLE = {
